@@ -27,7 +27,7 @@ import re
 META = {
  "engine": "tla-metachain",
  "text": "TLC exhausts MetaChain.tla (put / tombstone / delete / persist with nmerge and the lastMod filter / reopen; "
-         "2-3 keys, maxChain 2-3 as a spec constant, 6-9 writes, 1-2 reopens) for: reading the chain back yields exactly "
+         "2-3 keys, maxChain 2-3 as a spec constant, 5 (quick) to 9 writes, 1-2 reopens) for: reading the chain back yields exactly "
          "the live entries as of the last persist, the in-memory chain equals the file chain, the chain is bounded, the "
          "lastMod filter is sound; and HamtTrie.tla (Mutable / with / without / pullUp / Freeze on a shared node heap, "
          "up to 3 versions alive, 4-5 keys colliding on every level down to overflow nodes) for: every version is "
@@ -52,25 +52,25 @@ def run(ctx):
 
 
 def model_check(ctx):
-    # 1. design level: exhaustive TLC on MetaChain.tla
-    ctx.tlc_mc("MC_MetaChain.tla", "MetaChain_quick.cfg", timeout=300)
-    ctx.tlc_mc("MC_MetaChain.tla", "MetaChain_quick2.cfg", timeout=300)
+    # 1. design level: exhaustive TLC on MetaChain.tla (quick: one config; the rest is thorough)
+    ctx.tlc_mc("MC_MetaChain.tla", "MetaChain_quick.cfg", timeout=300, workers=8)
     if ctx.thorough():
+        ctx.tlc_mc("MC_MetaChain.tla", "MetaChain_thorough2.cfg", timeout=600)
+        ctx.tlc_mc("MC_MetaChain.tla", "MetaChain_quick2.cfg", timeout=600)
         ctx.tlc_mc("MC_MetaChain.tla", "MetaChain_thorough.cfg", timeout=1500)
         ctx.tlc_mc("MC_MetaChain.tla", "MetaChain_thorough3.cfg", timeout=1500)
         ctx.tlc_mc("MC_MetaChain.tla", "MetaChain_thorough3c.cfg", timeout=1500)
     # anti-vacuity: with the F7 behaviour (emptied flatten keeps the old chain) the model must fail
-    ctx.tlc_mc("MC_MetaChain.tla", "MetaChain_dev_f7.cfg", timeout=300,
+    ctx.tlc_mc("MC_MetaChain.tla", "MetaChain_dev_f7.cfg", timeout=300, workers=2,
                expect_violation="ReopenSeesPersisted", count=False)
     # the hash-trie level: with / without / pullUp with generation based path copying on a
     # shared heap of nodes, several versions alive, keys colliding on every level
-    ctx.tlc_mc("MC_HamtTrie.tla", "HamtTrie_quick.cfg", timeout=300)
+    ctx.tlc_mc("MC_HamtTrie.tla", "HamtTrie_quick.cfg", timeout=300, workers=8)
     if ctx.thorough():
         ctx.tlc_mc("MC_HamtTrie.tla", "HamtTrie_thorough.cfg", timeout=1500)
         ctx.tlc_mc("MC_HamtTrie.tla", "HamtTrie_thorough3.cfg", timeout=1500)
-    # anti-vacuity: a path copy left out must break a frozen version in the model
-    ctx.tlc_mc("MC_HamtTrie.tla", "HamtTrie_dev_pullup.cfg", timeout=300, expect_violation="GetOK", count=False)
-    if ctx.thorough():
+        # anti-vacuity: a path copy left out must break a frozen version in the model
+        ctx.tlc_mc("MC_HamtTrie.tla", "HamtTrie_dev_pullup.cfg", timeout=300, expect_violation="GetOK", count=False)
         ctx.tlc_mc("MC_HamtTrie.tla", "HamtTrie_dev_without.cfg", timeout=300, expect_violation="GetOK", count=False)
         ctx.tlc_mc("MC_HamtTrie.tla", "HamtTrie_dev_mutable.cfg", timeout=300, expect_violation="OwnNodesPrivate", count=False)
 
@@ -82,7 +82,7 @@ def conformance(ctx):
     else:
         drv = ctx.go_build("metachain")
         trace = ctx.work + "/metachain.ndjson"
-        nh, ndb = (150, 400) if ctx.thorough() else (24, 70)
+        nh, ndb = (150, 400) if ctx.thorough() else (14, 40)
         rc, out, summ = ctx.driver(drv, [trace, nh, ndb], timeout=1500)
         if rc != 0 or not summ:
             raise ctx_infra("metachain driver failed (rc=%s):\n%s" % (rc, out[-2000:]))
